@@ -269,10 +269,12 @@ class EncodeSparse(Sparse_):
 
     def __getitem__(self, key: Union[int,str]):
         try:
-            return self._enc.get(key,lambda x:x)(self._row[key])
+            val = self._row[key]
         except KeyError:
-            if key in self._nsp: return self._enc.get(key, lambda x:x)("0")
-            raise
+            #only a key the row leaves out has a default (a KeyError raised by an encoder is not a key that is left out)
+            if key not in self._nsp: raise
+            val = "0"
+        return self._enc.get(key,lambda x:x)(val)
 
     def __iter__(self) -> Iterator:
         return iter(self._row.keys() | self._nsp)
